@@ -233,9 +233,20 @@ def typed_scalar(gen):
     return ("S", None, kind.make(re, im))
 
 
+SQRT_P = 0.35             # share of the scalar boxes that are square-root scalars sqrt(z) (gates.Sqrt)
+SUBCLASS_P = 0.06         # share of the kets / bras / rotations / scalars built as a trivial user subclass
+
+
+def sub(gen, g):
+    """`g`, or (rarely) the same gate as an instance of `class My<cls>(<cls>): pass`."""
+    return ("U", g) if gen.rng.random() < SUBCLASS_P else g
+
+
 def zx_gateset(gen, w):
     """Gate classes of the property's quantifier: Ket, Bra, H, X, Y, Z, CX, CZ, Rx, Rz, CRz, CRx, CU1,
-    SWAP, scalar — and their daggers; phases and scalar data in every numeric type."""
+    SWAP, scalar — and their daggers; phases and scalar data in every numeric type.  Every way the
+    library offers to get a box of one of these classes: `sqrt(z)` (gates.Sqrt SUBCLASSES gates.Scalar),
+    `Controlled(X)` (what CX is), and trivial user subclasses."""
     rng = gen.rng
     opts = ["scalar"]
     if w >= 1:
@@ -249,18 +260,24 @@ def zx_gateset(gen, w):
         g = ("N", rng.choice(("H", "X", "Y", "Z")))
     elif o == "r1":
         g = typed_rot(gen, rng.choice(("Rx", "Rz")))
+        if rng.random() < SUBCLASS_P:
+            return ("U", g)
     elif o == "n2":
-        g = ("N", rng.choice(("CX", "CZ")))
+        g = ("N", rng.choice(("CX", "CZ"))) if rng.random() < 0.85 else ("C", ("N", "X"))
     elif o == "r2":
         g = typed_rot(gen, rng.choice(F7_KINDS))
+        if rng.random() < SUBCLASS_P:
+            return ("U", g)
     elif o == "swap":
         g = ("W",)
     elif o == "ket":
-        return ("K", gen.bits(rng.randint(1, min(2, gen.max_wires - w))))
+        return sub(gen, ("K", gen.bits(rng.randint(1, min(2, gen.max_wires - w)))))
     elif o == "bra":
-        return ("B", gen.bits(rng.randint(1, min(2, w))))
+        return sub(gen, ("B", gen.bits(rng.randint(1, min(2, w)))))
     else:
-        g = typed_scalar(gen)
+        g = gen.sqrt_box() if rng.random() < SQRT_P else typed_scalar(gen)
+        if rng.random() < SUBCLASS_P:
+            return ("U", g)
         return ("D", g) if rng.random() < 0.25 else g
     if rng.random() < 0.25:
         g = ("D", g)
@@ -271,27 +288,33 @@ def exact_desc(g):
     k = g[0]
     if k == "R":
         return g[2] is not None and g[2] % 2 == 0
-    if k in "DC":
+    if k in "DCU":
         return exact_desc(g[1])
     if k == "S":
         return g[1] is not None
+    if k == "Z":
+        return g[1] is not None and g[2] is not None
     return True
 
 
 def f7_gate(g):
     g = qgen.norm(g)
+    if g[0] == "U":
+        g = g[1]
     return g[0] == "R" and g[1] in F7_KINDS
 
 
 def desc_values(g):
     """[(role, value)] of the numbers a gate descriptor carries."""
     k = g[0]
-    if k in "DC":
+    if k in "DCU":
         return desc_values(g[1])
     if k == "R":
         return [("phase", g[3])]
     if k == "S":
         return [("scalar", g[2])]
+    if k == "Z":
+        return [("sqrt-data", g[3])]
     return []
 
 
@@ -313,12 +336,14 @@ def plain(g):
     """The descriptor with every number turned into a Python float / complex (for the textbook
     matrices of qgen.std_io, which know nothing of numeric types)."""
     k = g[0]
-    if k in "DC":
+    if k in "DCU":
         return (k, plain(g[1]))
     if k == "R":
         return ("R", g[1], g[2], numtypes.to_complex(g[3]).real)
     if k == "S":
         return ("S", g[1], numtypes.to_complex(g[2]))
+    if k == "Z":
+        return ("Z", g[1], g[2], numtypes.to_complex(g[3]))
     return g
 
 
@@ -386,6 +411,338 @@ def show_zx(zxd):
     return " >> ".join(out)
 
 
+# --------------------------------------------------------------------------- shapes of circuits
+
+def base(g):
+    """The descriptor without `.dagger()` / subclass wrappers."""
+    while g[0] in "DU":
+        g = g[1]
+    return g
+
+
+def phase_colour(g):
+    """"z" / "x" if the gate translates to ONE 1 -> 1 phase spider of that colour (Rz, Rx, Z, X), else None."""
+    b = base(g)
+    if b[0] == "R" and b[1] in ("Rz", "Rx"):
+        return b[1][1]
+    if b[0] == "N" and b[1] in ("Z", "X"):
+        return b[1].lower()
+    return None
+
+
+def shape_tags(layers):
+    """Where the states and effects of a circuit are: `states_first_effects_last` (Ket >> gates >> Bra, the
+    usual shape) or `state_or_effect_mid_circuit`; and whether a wire that carries a phase gate is
+    RE-INDEXED by a later Ket / Bra to its left and then gets another phase gate (of the same colour, with
+    nothing in between on that wire: `same_colour_phase_gates_across_reindexing`)."""
+    tags = []
+    ks = [base(g)[0] for _, g, _ in layers]
+    if not any(k in "KB" for k in ks):
+        return ["no_state_or_effect"] if layers else []
+    body = [k for k in ks if k not in "SZ"]
+    i = 0
+    while i < len(body) and body[i] == "K":
+        i += 1
+    j = len(body)
+    while j > i and body[j - 1] == "B":
+        j -= 1
+    mid = any(k in "KB" for k in body[i:j])
+    tags.append("state_or_effect_mid_circuit" if mid else "states_first_effects_last")
+    # wires tracked by identity: each wire remembers the colour of the last phase gate that was the LAST
+    # box on it, and whether its index has changed since
+    wires = []                                   # [colour | None, reindexed?]
+    n_in = layers[0][0] + qgen.arity(layers[0][1])[0] + layers[0][2]
+    wires = [[None, False] for _ in range(n_in)]
+    across = across_same = 0
+    for l, g, _ in layers:
+        d, c = qgen.arity(g)
+        col = phase_colour(g)
+        if col is not None:
+            w = wires[l]
+            if w[0] is not None and w[1]:
+                across += 1
+                across_same += w[0] == col
+            wires[l] = [col, False]
+            continue
+        if c != d:
+            for w in wires[l + d:]:
+                w[1] = True
+        wires[l:l + d] = [[None, False] for _ in range(c)]
+    if across:
+        tags.append("phase_gates_across_reindexing")
+    if across_same:
+        tags.append("same_colour_phase_gates_across_reindexing")
+    return tags
+
+
+def interleaved(gen, reindex_only=False):
+    """(n_in, layers): rounds of 1 -> 1 phase gates (Rz / Rx / Z / X, typed phases, daggers) on most wires,
+    separated by Kets and Bras (1-2 bits, any offset: to the left of, between, to the right of the rotated
+    wires) and now and then another gate — states and effects at EVERY depth, so that wires carrying
+    rotations change their index between two rotations."""
+    rng = gen.rng
+    w = n_in = rng.randint(1, 4)
+    layers = []
+    rounds = rng.randint(2, 5)
+    for rnd in range(rounds):
+        common = rng.choice("zx") if rng.random() < 0.5 else None
+        for i in range(w):
+            if rng.random() < 0.75:
+                col = common or rng.choice("zx")
+                r = rng.random()
+                if r < 0.8:
+                    g = typed_rot(gen, "R" + col)
+                    if rng.random() < 0.15:
+                        g = ("D", g)
+                    elif rng.random() < SUBCLASS_P:
+                        g = ("U", g)
+                else:
+                    g = ("N", col.upper())
+                layers.append((i, g, w - i - 1))
+        if rnd == rounds - 1:
+            break
+        for _ in range(1 if rng.random() < 0.75 else 2):
+            opts = []
+            if w >= 1:
+                opts += ["bra", "bra"]
+            if w < gen.max_wires:
+                opts += ["ket", "ket"]
+            if not reindex_only:
+                opts += ["gate"]
+            o = rng.choice(opts)
+            if o == "bra":
+                k = rng.randint(1, min(2, w))
+                off = rng.randint(0, w - k) if rng.random() < 0.6 else 0
+                layers.append((off, ("B", gen.bits(k)), w - off - k))
+                w -= k
+            elif o == "ket":
+                k = rng.randint(1, min(2, gen.max_wires - w))
+                off = rng.randint(0, w) if rng.random() < 0.6 else 0
+                layers.append((off, ("K", gen.bits(k)), w - off))
+                w += k
+            else:
+                g = zx_gateset(gen, w)
+                while base(g)[0] in "KB":
+                    g = zx_gateset(gen, w)
+                d, c = arity(g)
+                off = rng.randint(0, w - d)
+                layers.append((off, g, w - off - d))
+    if not layers:
+        layers.append((0, ("K", gen.bits(1)), w))
+    return n_in, layers
+
+
+# --------------------------------------------------------------------------- helper constructors
+# hx = ("circ", n_in, layers) | ("id", n) | ("cups", n) | ("caps", n) | ("swap", a, b) | ("perm", [..])
+#    | ("dagger", hx) | ("transpose", hx, left) | ("tensor", [hx..]) | ("then", [hx..])
+
+MAX_WIDTH = 7
+
+
+def hx_build(e):
+    from discopy.quantum import qubit, Id
+    from discopy.quantum.circuit import Circuit
+    k = e[0]
+    if k == "circ":
+        return build_circuit(e[1], e[2])
+    if k == "id":
+        return Id(e[1])
+    if k == "cups":
+        return Circuit.cups(qubit ** e[1], qubit ** e[1])
+    if k == "caps":
+        return Circuit.caps(qubit ** e[1], qubit ** e[1])
+    if k == "swap":
+        return Circuit.swap(qubit ** e[1], qubit ** e[2])
+    if k == "perm":
+        return Circuit.permutation(list(e[1]))
+    if k == "dagger":
+        return hx_build(e[1]).dagger()
+    if k == "transpose":
+        return hx_build(e[1]).transpose(left=e[2])
+    if k == "tensor":
+        out = Id(0)
+        for x in e[1]:
+            out = out @ hx_build(x)
+        return out
+    out = hx_build(e[1][0])
+    for x in e[1][1:]:
+        out = out >> hx_build(x)
+    return out
+
+
+def hx_show(e):
+    k = e[0]
+    if k == "circ":
+        return "(" + show_circuit(e[1], e[2]) + ")"
+    if k == "id":
+        return "Id(%d)" % e[1]
+    if k in ("cups", "caps"):
+        return "Circuit.%s(qubit ** %d, qubit ** %d)" % (k, e[1], e[1])
+    if k == "swap":
+        return "Circuit.swap(qubit ** %d, qubit ** %d)" % (e[1], e[2])
+    if k == "perm":
+        return "Circuit.permutation(%s)" % (list(e[1]),)
+    if k == "dagger":
+        return hx_show(e[1]) + ".dagger()"
+    if k == "transpose":
+        return hx_show(e[1]) + ".transpose(left=%s)" % e[2]
+    return "(" + (" @ " if k == "tensor" else " >> ").join(hx_show(x) for x in e[1]) + ")"
+
+
+def hx_arity(e):
+    k = e[0]
+    if k == "circ":
+        return e[1], e[1] + sum(arity(g)[1] - arity(g)[0] for _, g, _ in e[2])
+    if k == "id":
+        return e[1], e[1]
+    if k == "cups":
+        return 2 * e[1], 0
+    if k == "caps":
+        return 0, 2 * e[1]
+    if k == "swap":
+        return e[1] + e[2], e[1] + e[2]
+    if k == "perm":
+        return len(e[1]), len(e[1])
+    if k in ("dagger", "transpose"):
+        d, c = hx_arity(e[1])
+        return c, d
+    if k == "tensor":
+        ar = [hx_arity(x) for x in e[1]]
+        return sum(a for a, _ in ar), sum(b for _, b in ar)
+    return hx_arity(e[1][0])[0], hx_arity(e[1][-1])[1]
+
+
+def hx_ops(e):
+    k = e[0]
+    if k in ("dagger", "transpose"):
+        return {k if k == "dagger" else "transpose(left=%s)" % e[2]} | hx_ops(e[1])
+    if k in ("tensor", "then"):
+        return set().union(*[hx_ops(x) for x in e[1]]) if e[1] else set()
+    return {k} if k != "id" else set()
+
+
+def max_width(c):
+    w = m = len(c.dom)
+    for b in c.boxes:
+        w += len(b.cod) - len(b.dom)
+        m = max(m, w)
+    return m
+
+
+def read_box(b):
+    """Descriptor of a box of a real circuit (library classes only, matched exactly), or None."""
+    from discopy.quantum import gates
+    from discopy.quantum.circuit import Swap
+    t = type(b)
+    if t in qgen._SUBCLASSES.values():               # class My<cls>(<cls>): pass
+        t = t.__mro__[1]
+        inner = read_box_as(b, t)
+        return None if inner is None else ("U", inner)
+    return read_box_as(b, t)
+
+
+def read_box_as(b, t):
+    from discopy.quantum import gates
+    from discopy.quantum.circuit import Swap
+    if t is Swap:
+        return ("W",)
+    if t is gates.Ket:
+        return ("K", tuple(int(x) for x in b.bitstring))
+    if t is gates.Bra:
+        return ("B", tuple(int(x) for x in b.bitstring))
+    if t is gates.Sqrt:
+        e = numtypes.exact(b.data)
+        zt = cyc8.from_gaussian(*e) if e is not None else None
+        if zt is None:
+            zt = cyc8.recognise(complex(b.data))
+        rt = cyc8.recognise(cmath.sqrt(complex(b.data)))
+        return ("Z", zt, rt, b.data)
+    if t is gates.Scalar:
+        if b.is_mixed:
+            return None
+        e = numtypes.exact(b.data)
+        zt = cyc8.from_gaussian(*e) if e is not None else None
+        if zt is None:
+            zt = cyc8.recognise(complex(b.data))
+        return ("S", zt, b.data)
+    if t in (gates.Rx, gates.Rz, gates.Ry, gates.CRz, gates.CRx, gates.CU1):
+        e = numtypes.exact(b.phase)
+        n = None
+        if e is not None and e[1] == 0 and (e[0] * 8).denominator == 1:
+            n = int(e[0] * 8)
+        return ("R", t.__name__, n, b.phase)
+    if t is gates.Controlled:
+        inner = read_box(b.controlled)
+        return None if inner is None or inner[0] == "U" else ("C", inner)
+    if t is gates.QuantumGate and b.name in qgen.NAMED1 + ("CZ",):
+        return ("D", ("N", b.name)) if b._dagger else ("N", b.name)
+    return None
+
+
+def read_circuit(c):
+    """[(left, descriptor, right)] of a real circuit, or None if a box is of no known class."""
+    w, out = len(c.dom), []
+    for b, off in zip(c.boxes, c.offsets):
+        g = read_box(b)
+        if g is None:
+            return None
+        out.append((off, g, w - off - len(b.dom)))
+        w += len(b.cod) - len(b.dom)
+    return out
+
+
+def random_hx(rng, exact):
+    """A random expression over the helper constructors: 1-3 columns, each a tensor of cups / caps / swaps /
+    permutations / small random circuits / identities and (nested once or twice) their daggers and
+    left / right transposes, composed where the numbers of wires allow."""
+    def small_circuit():
+        gen = QGen(random.Random(rng.getrandbits(64)), exact=exact, gateset=zx_gateset, max_wires=3)
+        return gen.circuit(n_in=rng.randint(0, 2), depth=rng.randint(1, 3))
+
+    def free(depth):
+        o = rng.choice(["circ", "circ", "cups", "caps", "swap", "perm"] + (["dagger", "transpose", "transpose"]
+                                                                         if depth else []))
+        if o == "circ":
+            n_in, layers = small_circuit()
+            return ("circ", n_in, layers)
+        if o in ("cups", "caps"):
+            return (o, 1 if rng.random() < 0.7 else 2)
+        if o == "swap":
+            return ("swap", rng.randint(1, 2), 1)
+        if o == "perm":
+            perm = list(range(rng.randint(2, 3)))
+            rng.shuffle(perm)
+            return ("perm", perm)
+        if o == "dagger":
+            return ("dagger", free(depth - 1))
+        return ("transpose", free(depth - 1), rng.random() < 0.5)
+
+    def column(w):
+        parts, rem, out = [], w, 0
+        for _ in range(8):
+            if rem == 0 and parts and rng.random() < 0.75:
+                break
+            e = free(2)
+            d, c = hx_arity(e)
+            if d <= rem and out + c + (rem - d) <= 5 and d + c <= 5:
+                parts.append(e)
+                rem, out = rem - d, out + c
+            elif rem > 0:
+                parts.append(("id", 1))
+                rem, out = rem - 1, out + 1
+        if rem:
+            parts.append(("id", rem))
+        return ("tensor", parts) if len(parts) != 1 else parts[0]
+
+    w = rng.randint(0, 3)
+    cols = []
+    for _ in range(rng.randint(1, 3)):
+        col = column(w)
+        cols.append(col)
+        w = hx_arity(col)[1]
+    return ("then", cols) if len(cols) > 1 else cols[0]
+
+
 class LibError(Exception):
     """An exception raised by discopy (or by reading what it returned) at a named stage."""
 
@@ -447,29 +804,63 @@ class Check:
         case = dict(circuit=show_circuit(n_in, layers), stream=stream)
         self.guarded(case, self._circuit, n_in, layers, stream, case)
 
-    def _circuit(self, n_in, layers, stream, case):
+    def helper(self, expr, stream):
+        """A circuit built with the library's helper constructors (cups, caps, swaps, permutations,
+        transposes, daggers of whole circuits): the circuit handed to circuit2zx is whatever the helper
+        returns; for the model it is read back box by box (`read_circuit`)."""
+        case = dict(circuit=hx_show(expr), stream=stream)
+        self.guarded(case, self._helper, expr, stream, case)
+
+    def _helper(self, expr, stream, case):
+        rep = self.rep
+        c = self.lib("build-circuit", hx_build, expr)
+        for name in sorted(hx_ops(expr)):
+            rep.count("helper:" + name)
+        if max_width(c) > MAX_WIDTH:
+            rep.count("helper:skipped_too_wide")
+            return
+        layers = self.lib("read-circuit", read_circuit, c)
+        if layers is None:
+            rep.count("helper:unreadable_oracle_only")
+        else:
+            same = self.lib("rebuild-circuit", lambda: build_circuit(len(c.dom), layers) == c)
+            if not same:
+                rep.count("helper:readback_differs_oracle_only")
+                layers = None
+        case["boxes"] = str(c)[:600]
+        self._circuit(len(c.dom), layers, stream, case, c=c)
+
+    def _circuit(self, n_in, layers, stream, case, c=None):
+        """`layers` = descriptors of the circuit's boxes (None: unknown — oracle only, nothing is demanded
+        if circuit2zx refuses); `c` = the circuit itself when it was not built from `layers`."""
         from discopy.quantum import zx
         rep = self.rep
-        c = self.lib("build-circuit", build_circuit, n_in, layers)
-        exact = all(exact_desc(g) for _, g, _ in layers)
+        c_built = c is None
+        if c is None:
+            c = self.lib("build-circuit", build_circuit, n_in, layers)
+        known = layers is not None
+        layers = layers or []
+        exact = known and all(exact_desc(g) for _, g, _ in layers)
         allk = [k for _, g, _ in layers for k in kinds(g)]
         for k in set(allk):
             rep.count("has:" + k)
         values = [rv for _, g, _ in layers for rv in desc_values(g)]
         for role, v in values:
             rep.count("given:%s:%s" % (role, numtypes.kind_of(v)))
+        for tag in shape_tags(layers):
+            rep.count("shape:" + tag)
         prec = worst_prec([v for _, v in values])
         nontrivial = any(not (g[0] == "R" and integer_phase(g[3])) and g[0] != "S" for _, g, _ in layers) \
-            or any(type(v) not in (int, float, complex) for _, v in values)
+            or any(type(v) not in (int, float, complex) for _, v in values) or not known
         rep.case(stream + "|" + case["circuit"], nontrivial)
         rep.sample(case)
         try:
             d = zx.circuit2zx(c)
             real_err = None
-        except KeyError:
-            d, real_err = None, "err index"
+        except KeyError as exc:
+            d, real_err, self.last_exc = None, "err index", "KeyError: %s" % (exc,)
         except Exception as exc:
-            d, real_err = None, "err " + err_class(exc)
+            d, real_err, self.last_exc = None, "err " + err_class(exc), "%s: %s" % (type(exc).__name__, exc)
         types = {}
         zl = None
         if d is not None:
@@ -483,12 +874,17 @@ class Check:
                 rep.disagree("c2zx", case, real[:400], model[:400])
         if d is None:
             rep.count("unsupported")
-            if all(self.supported(g) for _, g, _ in layers):
-                rep.fail("circuit2zx_raises:" + real_err, case, "supported gate set but circuit2zx raised")
+            if known and all(self.supported(g) for _, g, _ in layers):
+                rep.fail("circuit2zx_raises:" + real_err + (":user-subclass" if "user-subclass" in allk else ""),
+                         case, "pure circuit over the supported gate set (%s) but circuit2zx raised %s" % (
+                             ", ".join(sorted(set(allk))), self.last_exc))
             return
         try:
             e = eval_io(c)
         except Exception:  # noqa: the circuit's own evaluation is not this property's subject
+            if not known:
+                rep.count("eval_unavailable_unreadable_skipped")
+                return
             rep.count("eval_unavailable_textbook_used")
             e = qgen.product_io(n_in, [(l, plain(g), r) for l, g, r in layers], qgen.std_io)
         # arity
@@ -518,10 +914,33 @@ class Check:
                 else:
                     rep.fail("circuit2zx_not_proportional", case, "also with corrected CRz/CRx/CU1")
             else:
+                if known and c_built:
+                    case["shrunk"] = self.shrink(n_in, layers, EVAL_TOL[prec])
                 rep.fail("circuit2zx_not_proportional", case,
                          "ZX diagram does not denote the evaluation up to a non-zero scalar")
         # oracle: dagger of the ZX diagram denotes the conjugate transpose
         self.zx_dagger(d, zl, z, case, exact)
+
+    def shrink(self, n_in, layers, tol):
+        """A smaller failing input (diagnosis only, runs after a failure): drop layers that keep the number
+        of wires, one at a time, as long as the translation stays non-proportional to the evaluation."""
+        from discopy.quantum import zx
+
+        def fails(ls):
+            try:
+                c = build_circuit(n_in, ls)
+                dom, zl = read_zx(zx.circuit2zx(c))
+                return not proportional(zx_numpy(dom, zl)[0], eval_io(c), tol)[0]
+            except Exception:  # noqa: only failures of the same kind are kept
+                return False
+        ls, i = list(layers), 0
+        while i < len(ls) and len(ls) > 1:
+            d, c = arity(ls[i][1])
+            if d == c and fails(ls[:i] + ls[i + 1:]):
+                del ls[i]
+            else:
+                i += 1
+        return show_circuit(n_in, ls)
 
     def compare_semantics(self, z, dom, cod, t, case):
         """Model's interpretation of the diagram (tokens `t`) against the textbook one (`z`): exactly,
@@ -543,15 +962,22 @@ class Check:
         rep.disagree("zxeval", case, (r or "unrepresentable")[:300], m[:300])
 
     def supported(self, g):
+        """The property's gate set: Ket, Bra, H, X, Y, Z, CX, CZ, Rx, Rz, CRz, CRx, CU1, SWAP, scalar and
+        their daggers — every box that IS an instance of one of these classes: `sqrt(z)` (gates.Sqrt is a
+        subclass of gates.Scalar), `Controlled(X)` (= CX), instances of user subclasses."""
         g = qgen.norm(g)
         k = g[0]
+        if k == "U":
+            return self.supported(g[1])
         if k == "N":
             return g[1] in ("H", "X", "Y", "Z", "CX", "CZ")
         if k == "D":
             return g[1] == ("N", "Y")
+        if k == "C":
+            return g[1] == ("N", "X")
         if k == "R":
             return g[1] in ("Rx", "Rz") + F7_KINDS
-        return k in "KBWS"
+        return k in "KBWSZ"
 
     def repaired_layers(self, layers):
         """circuit2zx with the real gate2zx for every gate except CRz/CRx/CU1, which get the
@@ -562,6 +988,8 @@ class Check:
             n = qgen.norm(g)
             if n[0] == "R" and n[1] in F7_KINDS:
                 sub = fixed_layers(n[1], numtypes.to_complex(n[3]).real)
+            elif n[0] == "U" and n[1][0] == "R" and n[1][1] in F7_KINDS:
+                sub = fixed_layers(n[1][1], numtypes.to_complex(n[1][3]).real)
             else:
                 sub = read_zx(zx.circuit2zx(build(g)))[1]
             out += [(b, o + l) for b, o in sub]
@@ -785,8 +1213,22 @@ def run(tier, seed, replay=None):
                 "scalar (alone / beside a wire / inside a diagram), as Z/X/Y spider phase, as circuit scalar "
                 "(alone and inside a circuit, also daggered) and as phase of Rx/Rz/CRz/CRx/CU1; counts under "
                 "`given:*` (type handed in) and `stored:*` (type found in the ZX diagram / its dagger). "
-                "Non-trivial = contains a gate other than a scalar or a rotation at an integer phase, or a "
-                "number of a type other than int/float/complex; distinct by printed form")
+                "(6) SUBCLASSES AND HELPER CONSTRUCTORS: every box that IS an instance of a class of the gate set "
+                "although its type is another one — square-root scalars sqrt(z) (gates.Sqrt subclasses "
+                "gates.Scalar; 23 exact roots x int/float/complex/numpy data, random complex data, alone, "
+                "daggered, beside wires, and 35 % of the scalar boxes of every random circuit), Controlled(X), "
+                "trivial user subclasses `class MyRz(Rz): pass` of Ket/Bra/Rz/Rx/CRz/CRx/CU1/Scalar/Sqrt (pinned "
+                "and 6 % of the boxes of random circuits) — and circuits built by Circuit.cups / caps (which "
+                "contain sqrt(2)), Circuit.swap / permutation, .transpose(left=False|True) and .dagger() of "
+                "whole circuits, nested and composed at random (`helper:*`); the circuit the helper returns is "
+                "read back box by box for the model; (7) STATES AND EFFECTS AT EVERY DEPTH (`interleaved`): "
+                "rounds of 1->1 phase gates (Rz/Rx/Z/X, typed, daggered) on most wires separated by Kets and "
+                "Bras of 1-2 bits at any offset (left of / between / right of rotated wires, several per "
+                "circuit), so that a wire carrying a rotation changes its index before the next rotation of "
+                "the same colour; `shape:*` counts circuits of shape Ket >> gates >> Bra, circuits with a "
+                "state or effect in the middle, and circuits with (same-colour) phase gates on a wire across "
+                "a re-indexing. Non-trivial = contains a gate other than a scalar or a rotation at an integer "
+                "phase, or a number of a type other than int/float/complex; distinct by printed form")
     rep.partial = [
         "the lifting of the per-gate theorem to whole circuits (one overall non-zero scalar = product of the "
         "per-gate scalars) is proved in Lean for every well-typed circuit over the translated gate set at the "
@@ -794,6 +1236,13 @@ def run(tier, seed, replay=None):
         "longer kets/bras are covered by the oracle and exact correspondence only",
         "the dagger of a whole ZX diagram is proved (every well-typed diagram, any arities and phases) for the "
         "model's interpretation; discopy's own .dagger() is tied to the model's by exact correspondence",
+        "square-root scalars: gate2zx_sound_sqrt / circuit2zx_sound cover sqrt(z) whose value r (r*r = z) is a "
+        "unit of Z[zeta_8][1/2] (sqrt(2) of cups and caps, 1/sqrt2, i, 1+-i, zeta, 1+sqrt2, ...) or zero; roots "
+        "that are non-zero non-units (sqrt(9), sqrt(-3+4i)) and random complex data are decided by the oracle and "
+        "the exact correspondence only. The model has no classes: subclass instances and helper-built circuits "
+        "are sent to it as the gates they are (read back from the circuit the helper returned), so that "
+        "circuit2zx refusing or mistranslating them shows against the model and the oracle; the helpers "
+        "themselves (that Circuit.cups denotes a cup) are not part of this property",
         "gate2zx_sound for kets/bras is decided for bitstrings of <= 3 bits; the as-is CRx image is refuted at "
         "phase 1/4 only (CRz, CU1: exact extent proved for every real phase)",
         "the numeric TYPE of a Python datum is not modelled: the model's scalars are exact elements of "
@@ -840,14 +1289,64 @@ def run(tier, seed, replay=None):
                 chk.circuit(k, [(0, ("B", bits), 0)], "ketbra")
         for t in qgen.EXACT_SCALARS:
             chk.circuit(0, [(0, ("S", t, cyc8.to_complex(t)), 0)], "scalar")
+        # every class that gate2zx accepts through SUBCLASSING: square-root scalars (gates.Sqrt < gates.Scalar;
+        # 23 exact roots x the Python types of the data; alone, daggered, beside wires) and trivial user
+        # subclasses of Ket, Bra, Rz, Rx, CRz, CRx, CU1, Scalar, Sqrt
+        for i, w in enumerate(qgen.EXACT_ROOTS):
+            zt = cyc8.mul(w, w)
+            types = ["auto", "complex", "np.complex128"]
+            if cyc8.is_real(zt) and cyc8.to_complex(zt).real >= 0:
+                types += ["float", "np.float64"]
+            for j, ty in enumerate(types if thorough else [types[i % len(types)], types[(i + 1) % len(types)]]):
+                g = qgen.sqrt_exact(w, ty)
+                chk.circuit(0, [(0, g, 0)], "sqrt")
+                chk.circuit(0, [(0, ("D", g), 0)], "sqrt")
+                if thorough or (i + j) % 2 == 0:
+                    chk.circuit(0, [(0, g, 0), (0, ("K", (j % 2,)), 0), (0, ("N", "H"), 0),
+                                    (1, ("D", g), 0), (0, ("R", "Rz", 2, 0.25), 0)], "sqrt")
+        for _ in range(10 if not thorough else 200):
+            g = QGen(random.Random(rng.getrandbits(64)), exact=False).sqrt_box()
+            chk.circuit(0, [(0, g, 0)], "sqrt")
+            chk.circuit(1, [(0, ("N", "X"), 0), (1, ("D", g), 0)], "sqrt")
+        subs = [("K", (0, 1)), ("K", ()), ("B", (1,)), ("B", (1, 0, 1)), ("S", (0, 0, 1, 0, 1), 0.5j),
+                ("S", (-3, 0, 0, 0, 0), -3), qgen.sqrt_exact((0, 1, 0, -1, 0)), qgen.sqrt_exact((1, 0, 1, 0, 0))]
+        subs += [("R", kind, n, n / 8.0) for kind in ("Rx", "Rz") + F7_KINDS for n in (2, -6)]
+        for g in subs:
+            d, _ = arity(g)
+            chk.circuit(d, [(0, ("U", g), 0)], "user-subclass")
+            chk.circuit(d + 1, [(1, ("U", g), 0), (0, ("N", "H"), arity(g)[1])], "user-subclass")
+        # helper constructors of the library: cups and caps (CX >> H @ sqrt(2) @ Id(1) >> Bra(0, 0) and its
+        # dagger), swaps, permutations, transposes and daggers of whole circuits
+        pinned = [("cups", 1), ("caps", 1), ("cups", 2), ("caps", 2), ("swap", 1, 2), ("swap", 2, 1),
+                  ("perm", [2, 0, 1]), ("dagger", ("cups", 2)),
+                  ("then", [("tensor", [("caps", 1), ("id", 1)]),
+                            ("tensor", [("id", 1), ("circ", 1, [(0, ("R", "Rx", 2, 0.25), 0)]), ("id", 1)]),
+                            ("tensor", [("id", 1), ("cups", 1)])]),
+                  ("then", [("tensor", [("id", 1), ("caps", 1)]),
+                            ("tensor", [("cups", 1), ("circ", 1, [(0, ("R", "Rz", None, 0.3), 0)])])])]
+        tgates = [("N", n) for n in ("H", "X", "Y", "Z", "CX", "CZ")] + [("W",), ("K", (1,)), ("B", (0, 1)),
+                  ("S", (0, 0, 1, 0, 1), 0.5j), qgen.sqrt_exact((0, 1, 0, -1, 0))]
+        tgates += [("R", kind, 2, 0.25) for kind in ("Rx", "Rz") + F7_KINDS]
+        for g in tgates:
+            for left in (False, True):
+                pinned.append(("transpose", ("circ", arity(g)[0], [(0, g, 0)]), left))
+        for e in pinned:
+            chk.helper(e, "helper-pinned")
+        for k in range(60 if not thorough else 700):
+            chk.helper(random_hx(random.Random(rng.getrandbits(64)), exact=(k % 2 == 0)), "helper")
         # every numeric type, systematically
         chk.typed_sweep(thorough)
+        # states and effects at every depth, between rounds of phase gates on wires whose index changes
+        for k in range(160 if not thorough else 2000):
+            gen = QGen(random.Random(rng.getrandbits(64)), exact=(k % 2 == 0), gateset=zx_gateset)
+            n_in, layers = interleaved(gen, reindex_only=(k % 4 < 2))
+            chk.circuit(n_in, layers, "interleaved")
         # circuits
-        for k in range(400 if not thorough else 5000):
+        for k in range(300 if not thorough else 5000):
             gen = QGen(random.Random(rng.getrandbits(64)), exact=(k % 2 == 0), gateset=zx_gateset)
             n_in, layers = gen.circuit()
             chk.circuit(n_in, layers, "circuit")
-        for _ in range(400 if not thorough else 5000):
+        for _ in range(300 if not thorough else 5000):
             chk.random_zx()
         rep.extra["float_oracle_comparisons"] = chk.float_cmp
         rep.extra["numeric_types"] = [k.name for k in numtypes.KINDS]
